@@ -95,8 +95,17 @@ type structKey struct{ A int }
 
 var p1, p2 = new(int), new(int)
 
+// pointers of different types to the same address, and typed nil pointers of different types
+type firstField struct {
+	A int
+	B string
+}
+
+var ff = &firstField{}
+
 // Keys: equal values of distinct types, pointers, structs, and the library's own alignment key.
-var Keys = []interface{}{int(1), int64(1), "1", namedKey(1), structKey{1}, p1, p2, align.PropertyType, int(2), namedKey(2), uint8(1), structKey{2}}
+var Keys = []interface{}{int(1), int64(1), "1", namedKey(1), structKey{1}, p1, p2, align.PropertyType, int(2), namedKey(2), uint8(1), structKey{2},
+	ff, &ff.A, (*int)(nil), (*namedKey)(nil)}
 
 type props map[int]interface{}
 
